@@ -49,6 +49,9 @@ func (fv *FuncVC) buildQuery(o *Obligation) string {
 	if len(names) > 40 {
 		names = names[:40]
 	}
+	if rv := fv.replayGetValues(); len(rv) > 0 {
+		sb.WriteString("(get-value (" + strings.Join(rv, " ") + "))\n")
+	}
 	if len(names) > 0 {
 		sb.WriteString("(get-value (" + strings.Join(names, " ") + "))\n")
 	}
